@@ -28,6 +28,16 @@ def normalise (mx sx my sy : Rat) (p : Pt) : Pt := ((p.1 - mx) / sx, (p.2 - my) 
 
 def convexHullMask (S : List Pt) (qs : List Pt) : List Bool := qs.map (inHull S)
 
+/-! Primitives of the translation of `convexhull_mask` (Gen/Mask.lean). -/
+/-- `f(a, b, c) for a, b, c in zip(as, bs, cs)`. -/
+def zip3With {α β γ δ : Type} (f : α → β → γ → δ) : List α → List β → List γ → List δ
+  | a :: as, b :: bs, c :: cs => f a b c :: zip3With f as bs cs
+  | _, _, _ => []
+/-- `Delaunay(np.transpose(data)).find_simplex(np.transpose(queries)) != -1` on tables of two coordinate arrays: SciPy's contract is the
+    exact point-in-hull predicate of the model. -/
+def delaunayContains (data queries : List (List Rat)) : List Bool :=
+  convexHullMask ((data.getD 0 []).zip (data.getD 1 [])) ((queries.getD 0 []).zip (queries.getD 1 []))
+
 /-- Output grid lines of `project_grid`: region = bounding box of the projected data points (or the given one),
     spacing = `shape_to_spacing(region, shape)` (or the given one), then `grid_coordinates(region, spacing=…)`. -/
 def projectGridLines (pe pn : List Rat) (shape : Nat × Nat) (region : Option (List Rat)) (spacing : Option (List Rat)) :
